@@ -111,8 +111,8 @@ def make_bodies(tier, max_full):
     """Intact bodies, every truncation of them that is at most max_full long, single-byte corruptions of the
     small ones, crafted zlib-looking raw bodies, identity bodies."""
     quick = tier == 'quick'
-    payloads = [b'a', b'ab', b'hello'] if quick else [b'a', b'ab', b'hello', b'aaaaaaaa', b'\x00\xff\x1f\x8b']
-    levels = [0, 6] if quick else [0, 1, 6, 9]
+    payloads = [b'a', b'ab', b'hello'] if quick else [b'a', b'ab', b'hello', b'aaaaaaaa']
+    levels = [0, 6] if quick else [0, 6, 9]
     out = []
     seen = set()
 
@@ -137,9 +137,9 @@ def make_bodies(tier, max_full):
                 add('%s/trunc%d' % (name, t), DEC_OF[fmt], fmt, data[:t], p, 'trunc')
     flips = [0x01] if quick else [0x01, 0x80, 0xff]
     for (name, fmt, data, p) in intact:
-        if len(data) <= (9 if quick else 11) or (fmt == 'gzip' and p == b'a' and 'L6' in name):
+        if len(data) <= 9 or (fmt == 'gzip' and p == b'a' and 'L6' in name):
             for c in range(len(data)):
-                for x in flips:
+                for x in (flips if len(data) <= 9 else flips[:1]):
                     bad = bytearray(data)
                     bad[c] ^= x
                     add('%s/flip%d^%02x' % (name, c, x), DEC_OF[fmt], fmt, bad, None, 'corrupt')
